@@ -113,55 +113,8 @@ def event__checkUntrustedEventJSON : List String := [
 
 def event__duplicateJSONKey : List String := [
   "func func(data []byte) (name string, found bool)",
-  "var stack []map[string]struct{}",
-  "expectKey := false",
-  "for i := 0; i < len(data); i++ {",
-  "switch data[i] {",
-  "case '{':",
-  "stack = append(stack, map[string]struct{}{})",
-  "expectKey = true",
-  "case '[':",
-  "stack = append(stack, nil)",
-  "expectKey = false",
-  "case '}', ']':",
-  "if len(stack) == 0 {",
-  "return \"\", false",
-  "}",
-  "stack = stack[:len(stack)-1]",
-  "expectKey = false",
-  "case ',':",
-  "expectKey = len(stack) > 0 && stack[len(stack)-1] != nil",
-  "case '\"':",
-  "end, escaped := i+1, false",
-  "for ; end < len(data) && data[end] != '\"';  {",
-  "if data[end] == '\\\\' {",
-  "escaped = true",
-  "end++",
-  "}",
-  "end++",
-  "}",
-  "if end >= len(data) {",
-  "return \"\", false",
-  "}",
-  "if expectKey {",
-  "key := string(data[i+1 : end])",
-  "if escaped && json.Unmarshal(data[i:end+1], &key) != nil {",
-  "return \"\", false",
-  "}",
-  "names := stack[len(stack)-1]",
-  "if _, dup := names[key]; dup {",
-  "return key, true",
-  "}",
-  "names[key] = struct{}{}",
-  "expectKey = false",
-  "}",
-  "i = end",
-  "}",
-  "if len(stack) > maxJSONNestingDepth {",
-  "return \"\", false",
-  "}",
-  "}",
-  "return \"\", false"
+  "name, found, _ = jsonWalk{decodeName: func(raw []byte, escaped bool) (string, bool) { key := string(raw[1 : len(raw)-1]) if escaped && json.Unmarshal(raw, &key) != nil { return \"\", false } return key, true }}.duplicateName(data)",
+  "return name, found"
 ]
 
 def event__jsonFieldNames : List String := [
@@ -228,8 +181,12 @@ def event_builder_EventBuilder_Build : List String := [
   "eventStruct.Origin = origin",
   "switch eventFormat {",
   "case EventFormatV1:",
-  "eventStruct.PrevEvents = toEventReference(eventStruct.PrevEvents)",
-  "eventStruct.AuthEvents = toEventReference(eventStruct.AuthEvents)",
+  "if eventStruct.PrevEvents, err = eventReferencesFrom(eventStruct.PrevEvents); err != nil {",
+  "return nil, fmt.Errorf(\"EventBuilder.Build: prev_events: %w\", err)",
+  "}",
+  "if eventStruct.AuthEvents, err = eventReferencesFrom(eventStruct.AuthEvents); err != nil {",
+  "return nil, fmt.Errorf(\"EventBuilder.Build: auth_events: %w\", err)",
+  "}",
   "case EventFormatV2:",
   "switch prevEvents := eventStruct.PrevEvents.(type) { case []string: eventStruct.PrevEvents = prevEvents case nil: eventStruct.PrevEvents = []string{} }",
   "switch authEvents := eventStruct.AuthEvents.(type) { case []string: eventStruct.AuthEvents = authEvents case nil: eventStruct.AuthEvents = []string{} }",
@@ -255,6 +212,9 @@ def event_builder_EventBuilder_Build : List String := [
   "if eventJSON, err = EnforcedCanonicalJSON(eventJSON, eb.version.Version()); err != nil {",
   "return",
   "}",
+  "if err = checkUntrustedEventJSON(eventJSON); err != nil {",
+  "return nil, err",
+  "}",
   "res, err := eb.version.NewEventFromTrustedJSON(eventJSON, false)",
   "if err != nil {",
   "return nil, err",
@@ -278,15 +238,105 @@ def event_builder_EventBuilder_SetUnsigned : List String := [
 def event_builder__eventHashFromEventID : List String := [
   "func func(eventID string) spec.Base64Bytes",
   "var sha spec.Base64Bytes",
+  "if len(eventID) == 0 {",
+  "return sha",
+  "}",
   "if err := sha.Decode(eventID[1:]); err != nil {",
   "return sha",
   "}",
   "return sha"
 ]
 
+def event_builder__eventReferenceFromEventID : List String := [
+  "func func(eventID string) (eventReference, error)",
+  "if len(eventID) == 0 || eventID[0] != '$' {",
+  "return eventReference{}, fmt.Errorf(\"gomatrixserverlib: invalid event ID %q\", eventID)",
+  "}",
+  "return eventReference{EventID: eventID, EventSHA256: eventHashFromEventID(eventID)}, nil"
+]
+
+def event_builder__eventReferencesFrom : List String := [
+  "func func(data any) ([]eventReference, error)",
+  "switch evs := data.(type) { case nil: return []eventReference{}, nil case []string: newEvents := make([]eventReference, 0, len(evs)) for _, eventID := range evs { ref, err := eventReferenceFromEventID(eventID) if err != nil { return nil, err } newEvents = append(newEvents, ref) } return newEvents, nil case []eventReference: return evs, nil case []interface{}: evRefs := make([]eventReference, 0, len(evs)) for _, b := range evs { evID, ok := b.(string) if !ok { ev, isList := b.([]interface{}) if !isList { continue } if len(ev) == 0 { return nil, fmt.Errorf(\"gomatrixserverlib: empty event reference\") } if evID, ok = ev[0].(string); !ok { return nil, fmt.Errorf(\"gomatrixserverlib: event reference must start with an event ID, got %T\", ev[0]) } } ref, err := eventReferenceFromEventID(evID) if err != nil { return nil, err } evRefs = append(evRefs, ref) } return evRefs, nil default: return []eventReference{}, nil }"
+]
+
 def event_builder__toEventReference : List String := [
   "func func(data any) []eventReference",
-  "switch evs := data.(type) { case nil: return []eventReference{} case []string: newEvents := make([]eventReference, 0, len(evs)) for _, eventID := range evs { newEvents = append(newEvents, eventReference{EventID: eventID, EventSHA256: eventHashFromEventID(eventID)}) } return newEvents case []eventReference: return evs case []interface{}: evRefs := make([]eventReference, 0, len(evs)) for _, b := range evs { evID, ok := b.(string) if ok { evRefs = append(evRefs, eventReference{EventID: evID, EventSHA256: eventHashFromEventID(evID)}) continue } ev, ok := b.([]interface{}) if ok { evRefs = append(evRefs, eventReference{EventID: ev[0].(string), EventSHA256: eventHashFromEventID(ev[0].(string))}) continue } } return evRefs default: return []eventReference{} }"
+  "refs, err := eventReferencesFrom(data)",
+  "if err != nil {",
+  "return []eventReference{}",
+  "}",
+  "return refs"
+]
+
+def event_jsonWalk_duplicateName : List String := [
+  "func func(data []byte) (name string, found bool, err error)",
+  "var stack []map[string]struct{}",
+  "expectKey := false",
+  "skipping := false",
+  "for i := 0; i < len(data); i++ {",
+  "switch data[i] {",
+  "case '{':",
+  "if skipping {",
+  "stack = append(stack, nil)",
+  "break",
+  "}",
+  "stack = append(stack, map[string]struct{}{})",
+  "expectKey = true",
+  "case '[':",
+  "stack = append(stack, nil)",
+  "expectKey = false",
+  "case '}', ']':",
+  "if len(stack) == 0 {",
+  "return \"\", false, nil",
+  "}",
+  "stack = stack[:len(stack)-1]",
+  "expectKey = false",
+  "if len(stack) == 0 {",
+  "skipping = false",
+  "}",
+  "case ',':",
+  "if len(stack) == 1 {",
+  "skipping = false",
+  "}",
+  "expectKey = !skipping && len(stack) > 0 && stack[len(stack)-1] != nil",
+  "case '\"':",
+  "end, escaped := i+1, false",
+  "for ; end < len(data) && data[end] != '\"';  {",
+  "if data[end] == '\\\\' {",
+  "escaped = true",
+  "end++",
+  "}",
+  "end++",
+  "}",
+  "if end >= len(data) {",
+  "return \"\", false, nil",
+  "}",
+  "if !skipping && w.checkString != nil {",
+  "if err = w.checkString(data[i : end+1]); err != nil {",
+  "return \"\", false, err",
+  "}",
+  "}",
+  "if expectKey {",
+  "key, ok := w.decodeName(data[i:end+1], escaped)",
+  "if !ok {",
+  "return \"\", false, nil",
+  "}",
+  "names := stack[len(stack)-1]",
+  "if _, dup := names[key]; dup {",
+  "return key, true, nil",
+  "}",
+  "names[key] = struct{}{}",
+  "expectKey = false",
+  "skipping = len(stack) == 1 && w.skipMember != nil && w.skipMember(key)",
+  "}",
+  "i = end",
+  "}",
+  "if len(stack) > maxJSONNestingDepth {",
+  "return \"\", false, nil",
+  "}",
+  "}",
+  "return \"\", false, nil"
 ]
 
 def eventversion_RoomVersionImpl_CheckCanonicalJSON : List String := [
@@ -773,6 +823,6 @@ def spec_userid__parseAndValidateUserID : List String := [
   "return userID, nil"
 ]
 
-def functions : List String := ["eventV2.go:.CheckFields", "event.go:EventValidationError.Error", "event.go:.SplitID", "event.go:.checkID", "event.go:.checkRoomIDField", "event.go:.checkUntrustedEventJSON", "event.go:.duplicateJSONKey", "event.go:.jsonFieldNames", "event_builder.go:EventBuilder.AddAuthEvents", "event_builder.go:EventBuilder.Build", "event_builder.go:EventBuilder.SetContent", "event_builder.go:EventBuilder.SetUnsigned", "event_builder.go:.eventHashFromEventID", "event_builder.go:.toEventReference", "eventversion.go:RoomVersionImpl.CheckCanonicalJSON", "eventversion.go:RoomVersionImpl.CheckCreateEvent", "eventversion.go:RoomVersionImpl.CheckKnockingAllowed", "eventversion.go:RoomVersionImpl.CheckPowerLevelEvent", "eventversion.go:RoomVersionImpl.CheckRestrictedJoin", "eventversion.go:RoomVersionImpl.CheckRestrictedJoinsAllowed", "eventversion.go:RoomVersionImpl.DomainlessRoomIDs", "eventversion.go:RoomVersionImpl.EventFormat", "eventversion.go:RoomVersionImpl.EventIDFormat", "eventversion.go:RoomVersionImpl.NewEventBuilder", "eventversion.go:RoomVersionImpl.NewEventBuilderFromProtoEvent", "eventversion.go:RoomVersionImpl.NewEventFromTrustedJSON", "eventversion.go:RoomVersionImpl.NewEventFromTrustedJSONWithEventID", "eventversion.go:RoomVersionImpl.NewEventFromUntrustedJSON", "eventversion.go:RoomVersionImpl.ParsePowerLevels", "eventversion.go:RoomVersionImpl.PrivilegedCreators", "eventversion.go:RoomVersionImpl.RedactEventJSON", "eventversion.go:RoomVersionImpl.RestrictedJoinServername", "eventversion.go:RoomVersionImpl.SignatureValidityCheck", "eventversion.go:RoomVersionImpl.Stable", "eventversion.go:RoomVersionImpl.StateResAlgorithm", "eventversion.go:RoomVersionImpl.Version", "eventversion.go:UnsupportedRoomVersionError.Error", "eventversion.go:.GetRoomVersion", "eventversion.go:.KnownRoomVersion", "eventversion.go:.MustGetRoomVersion", "eventversion.go:.NewEventFromHeaderedJSON", "eventversion.go:.RoomVersions", "eventversion.go:.SetRoomVersion", "eventversion.go:.StableRoomVersion", "eventversion.go:.StableRoomVersions", "spec/base64.go:Base64Bytes.Decode", "spec/base64.go:Base64Bytes.Encode", "spec/base64.go:Base64Bytes.MarshalJSON", "spec/base64.go:Base64Bytes.MarshalYAML", "spec/base64.go:Base64Bytes.Scan", "spec/base64.go:Base64Bytes.UnmarshalJSON", "spec/base64.go:Base64Bytes.UnmarshalYAML", "spec/base64.go:Base64Bytes.Value", "spec/roomid.go:RoomID.Domain", "spec/roomid.go:RoomID.OpaqueID", "spec/roomid.go:RoomID.String", "spec/roomid.go:.NewRoomID", "spec/roomid.go:.parseAndValidateRoomID", "spec/senderid.go:SenderID.IsPseudoID", "spec/senderid.go:SenderID.IsUserID", "spec/senderid.go:SenderID.RawBytes", "spec/senderid.go:SenderID.ToPseudoID", "spec/senderid.go:SenderID.ToUserID", "spec/senderid.go:.SenderIDFromPseudoIDKey", "spec/senderid.go:.SenderIDFromUserID", "spec/servername.go:.ParseAndValidateServerName", "spec/servername.go:.isDNSNameChar", "spec/servername.go:.splitServerName", "spec/userid.go:UserID.Domain", "spec/userid.go:UserID.Local", "spec/userid.go:UserID.String", "spec/userid.go:.NewUserID", "spec/userid.go:.NewUserIDOrPanic", "spec/userid.go:.historicallyValidCharacters", "spec/userid.go:.parseAndValidateUserID"]
+def functions : List String := ["eventV2.go:.CheckFields", "event.go:EventValidationError.Error", "event.go:.SplitID", "event.go:.checkID", "event.go:.checkRoomIDField", "event.go:.checkUntrustedEventJSON", "event.go:.duplicateJSONKey", "event.go:.jsonFieldNames", "event_builder.go:EventBuilder.AddAuthEvents", "event_builder.go:EventBuilder.Build", "event_builder.go:EventBuilder.SetContent", "event_builder.go:EventBuilder.SetUnsigned", "event_builder.go:.eventHashFromEventID", "event_builder.go:.eventReferenceFromEventID", "event_builder.go:.eventReferencesFrom", "event_builder.go:.toEventReference", "event.go:jsonWalk.duplicateName", "eventversion.go:RoomVersionImpl.CheckCanonicalJSON", "eventversion.go:RoomVersionImpl.CheckCreateEvent", "eventversion.go:RoomVersionImpl.CheckKnockingAllowed", "eventversion.go:RoomVersionImpl.CheckPowerLevelEvent", "eventversion.go:RoomVersionImpl.CheckRestrictedJoin", "eventversion.go:RoomVersionImpl.CheckRestrictedJoinsAllowed", "eventversion.go:RoomVersionImpl.DomainlessRoomIDs", "eventversion.go:RoomVersionImpl.EventFormat", "eventversion.go:RoomVersionImpl.EventIDFormat", "eventversion.go:RoomVersionImpl.NewEventBuilder", "eventversion.go:RoomVersionImpl.NewEventBuilderFromProtoEvent", "eventversion.go:RoomVersionImpl.NewEventFromTrustedJSON", "eventversion.go:RoomVersionImpl.NewEventFromTrustedJSONWithEventID", "eventversion.go:RoomVersionImpl.NewEventFromUntrustedJSON", "eventversion.go:RoomVersionImpl.ParsePowerLevels", "eventversion.go:RoomVersionImpl.PrivilegedCreators", "eventversion.go:RoomVersionImpl.RedactEventJSON", "eventversion.go:RoomVersionImpl.RestrictedJoinServername", "eventversion.go:RoomVersionImpl.SignatureValidityCheck", "eventversion.go:RoomVersionImpl.Stable", "eventversion.go:RoomVersionImpl.StateResAlgorithm", "eventversion.go:RoomVersionImpl.Version", "eventversion.go:UnsupportedRoomVersionError.Error", "eventversion.go:.GetRoomVersion", "eventversion.go:.KnownRoomVersion", "eventversion.go:.MustGetRoomVersion", "eventversion.go:.NewEventFromHeaderedJSON", "eventversion.go:.RoomVersions", "eventversion.go:.SetRoomVersion", "eventversion.go:.StableRoomVersion", "eventversion.go:.StableRoomVersions", "spec/base64.go:Base64Bytes.Decode", "spec/base64.go:Base64Bytes.Encode", "spec/base64.go:Base64Bytes.MarshalJSON", "spec/base64.go:Base64Bytes.MarshalYAML", "spec/base64.go:Base64Bytes.Scan", "spec/base64.go:Base64Bytes.UnmarshalJSON", "spec/base64.go:Base64Bytes.UnmarshalYAML", "spec/base64.go:Base64Bytes.Value", "spec/roomid.go:RoomID.Domain", "spec/roomid.go:RoomID.OpaqueID", "spec/roomid.go:RoomID.String", "spec/roomid.go:.NewRoomID", "spec/roomid.go:.parseAndValidateRoomID", "spec/senderid.go:SenderID.IsPseudoID", "spec/senderid.go:SenderID.IsUserID", "spec/senderid.go:SenderID.RawBytes", "spec/senderid.go:SenderID.ToPseudoID", "spec/senderid.go:SenderID.ToUserID", "spec/senderid.go:.SenderIDFromPseudoIDKey", "spec/senderid.go:.SenderIDFromUserID", "spec/servername.go:.ParseAndValidateServerName", "spec/servername.go:.isDNSNameChar", "spec/servername.go:.splitServerName", "spec/userid.go:UserID.Domain", "spec/userid.go:UserID.Local", "spec/userid.go:UserID.String", "spec/userid.go:.NewUserID", "spec/userid.go:.NewUserIDOrPanic", "spec/userid.go:.historicallyValidCharacters", "spec/userid.go:.parseAndValidateUserID"]
 
 end VPins.C17
